@@ -162,7 +162,8 @@ def judge_history(acc, f, part):
 
 
 def bounds(tier, seed):
-    return {'formats': 'n_word in %s x n_frac {0,1,n/2,n-1,n} x signed/unsigned x {saturate, wrap}' % (WORDS,),
+    return {'interleaved': 'two shards visiting signed and unsigned formats of every word length alternately (either signedness first), forward then backward',
+            'formats': 'n_word in %s x n_frac {0,1,n/2,n-1,n} x signed/unsigned x {saturate, wrap}' % (WORDS,),
             'codes': 'boundary/walking-bit codes, just outside both bounds, +-k*2^n_word (+-1) for k in {1,2,3,7,2^20}, all-ones words of length n-1,n,'
                      'n+1,2n,4n, powers of two up to 4n, seed extras (3 per word)',
             'routes': 'raw constructor / raw set_val / raw indexed set_val / integer value; binary and hex strings with raw=True (in-range codes); '
@@ -171,12 +172,30 @@ def bounds(tier, seed):
 
 
 def shards(tier, seed):
-    return [{'nw': nw, 'signed': s, 'seed': seed} for nw in WORDS for s in (True, False)]
+    out = [{'nw': nw, 'signed': s, 'seed': seed} for nw in WORDS for s in (True, False)]
+    # both signednesses (and neighbouring word lengths) interleaved in ONE process, each order: state kept between calls
+    out.append({'interleave': list(WORDS), 'first_signed': True, 'seed': seed})
+    out.append({'interleave': list(WORDS), 'first_signed': False, 'seed': seed})
+    return out
 
 
 def run_shard(sh):
     reset_class_state()
     acc = Acc()
+    if 'interleave' in sh:
+        order = []
+        for nw in sh['interleave']:
+            a, b = Fmt(sh['first_signed'], nw, 0), Fmt(not sh['first_signed'], nw, 0)
+            order += [a, b, Fmt(sh['first_signed'], nw, nw // 2), Fmt(not sh['first_signed'], nw, nw // 2), a]
+        for f in order + order[::-1]:
+            cs = sorted({f.lo - 1, f.lo, -1, 0, 1, f.hi, f.hi + 1, (1 << f.n_word) - 1, -(1 << (f.n_word - 1)), (1 << f.n_word) + 5, f.lo - f.span})
+            for ovf in ('wrap', 'saturate'):
+                for c in cs:
+                    judge_code(acc, f, ovf, c, 'raw_ctor', 'I')
+                    judge_code(acc, f, ovf, c, 'raw_set_val', 'I')
+            inr = [c for c in cs if f.lo <= c <= f.hi]
+            judge_object(acc, f, inr, 'I')
+        return acc
     nw = sh['nw']
     for nf in sorted({0, 1, nw // 2, nw - 1, nw}):
         f = Fmt(sh['signed'], nw, nf)
